@@ -101,7 +101,7 @@ func init() {
 		lk, ek, et := dqKeys(e, a[0])
 		recv := a[0].term
 		ln := sel(st.get(lk), recv)
-		st.assume("(>= " + ln + " 0)")
+		st.assume("(and (>= " + ln + " 0) (<= " + ln + " 4611686018427387904))")
 		name := ""
 		if curCall != nil && curCall.StaticCallee() != nil {
 			name = curCall.StaticCallee().Name()
